@@ -190,6 +190,8 @@ VERSION = {
     "quick": [("13", "13"), ("8", "8"), ("12", "12"), ("absent", None), ("1", "1")],
     "thorough": [("13", "13"), ("8", "8"), ("7", "7"), ("12", "12"), ("absent", None), ("1", "1"), ("3", "3"), ("130", "130")],
 }
+ODD_VERSIONS = [(v, v) for v in ("013", "0008", "+13", "+7", "1_3", "13.0", "0x0d", "\uff11\uff13".encode("utf-8").decode("latin-1"),
+                                  "-13", "1e1", "13;q=1", "v13")]
 ORIGIN_T = {
     "quick": ["none", "same", "same-upper", "other-host", "suffix-host", "other-port",
               "userinfo-trick", "null", "https-same", "empty"],
@@ -354,8 +356,12 @@ def server_expect(hdrs, policy, enabled, advertised):
         comp["version"] = "OK"
     elif re.match(r"^(0|[1-9][0-9]{0,2})$", ver):
         comp["version"] = "OK" if ver in advertised else "FAIL"
+    elif "," in ver:
+        comp["version"] = "EITHER"       # a list in a request: not a version value, but some servers pick from it
     else:
-        comp["version"] = "EITHER"
+        # RFC 6455 4.1/11.3.5: the value is a canonical decimal 0..255 (no sign, no leading zero, no separators);
+        # anything else is not "a version understood by the server", however int() would read it
+        comp["version"] = "FAIL"
     host = field(hdrs, "Host")
     if host is None:
         comp["host"] = "FAIL"
@@ -1027,8 +1033,12 @@ class C17(Check):
         advertised = advertised | {"13"}
         namecases = ["canon"] if tier == "quick" else ["canon", "lower"]
         pairs = host_origin_pairs(tier)
-        for (vl, ver), (hv, ot), (sol, so), pol, (el, eo), en in itertools.product(
-                VERSION[tier], pairs, SUBOFFER[tier], POLICY[tier], EXTOFFER[tier], COMPRESS):
+        cases = itertools.product(VERSION[tier], pairs, SUBOFFER[tier], POLICY[tier], EXTOFFER[tier], COMPRESS)
+        if (ul, cl, kl) == ("websocket", "Upgrade", "valid"):
+            # version values that int() / float() / substring tests read as a supported version, in an otherwise valid request
+            cases = itertools.chain(cases, itertools.product(ODD_VERSIONS, pairs[:1], SUBOFFER[tier][:1], POLICY[tier],
+                                                             EXTOFFER[tier][:1], COMPRESS))
+        for (vl, ver), (hv, ot), (sol, so), pol, (el, eo), en in cases:
             hdrs = server_headers(u, c, k, ver, hv, ot, so, eo)
             exp = server_expect(hdrs, pol, en, advertised)
             for nc in namecases:
